@@ -9,6 +9,7 @@ import json
 from dataclasses import dataclass
 import traceback
 import importlib.util
+import tokenize
 from nada_dsl.compiler_frontend import nada_compile
 from nada_dsl.errors import MissingEntryPointError, MissingProgramArgumentError
 from nada_dsl.timer import add_timer, timer
@@ -81,7 +82,12 @@ def _compile_script(script_path: str) -> CompilerOutput:
     try:
         spec = importlib.util.spec_from_file_location(script_name, script_path)
         script = importlib.util.module_from_spec(spec)
-        spec.loader.exec_module(script)
+        # Run the file's current text.  The loader would reuse the bytecode cached by
+        # an earlier compilation when the file was rewritten within the same second
+        # with a text of the same length (the cache is keyed by whole seconds and size).
+        with tokenize.open(script_path) as file:
+            code = compile(file.read(), script_path, "exec")
+        exec(code, script.__dict__)  # pylint:disable=W0122
     finally:
         timer.stop("nada_dsl.compile.compile.__import__")
 
